@@ -523,6 +523,9 @@ func runParseRest(c *core.Case) {
 	r := c.Rng
 	for k := 0; k < 8; k++ {
 		v1 := genValue(r, r.Intn(4))
+		if r.Chance(1, 4) { // numbers no integer target can hold, in every spelling
+			v1 = core.Pick(r, []string{"99999999999999999999", "99999999999999999999.5", "-99999999999999999999e2", "18446744073709551616", "-9223372036854775809", "123456789012345678901234567890E-3", "9223372036854775808.0e+1", "300", "-129", "1.5", "1e3", "-0.0e-0"})
+		}
 		ws1 := core.Pick(r, []string{"", " ", "\n\t ", "  "})
 		lead := core.Pick(r, []string{"", " ", "\n"})
 		tail := core.Pick(r, []string{"", genValue(r, r.Intn(4)), "x", "]", ",1", genValue(r, 0) + " " + genValue(r, 2)})
@@ -558,9 +561,20 @@ func runParseRest(c *core.Case) {
 		} else if err2 == nil && string(rest2) != tail {
 			c.Violation("parse-remainder", "remainder-diff", fmt.Sprintf("Parse(%q, *int) remainder %q, want %q", in, rest2, tail), map[string]any{"input": string(in)})
 		}
+		// other integer targets: the remainder does not depend on why the number does not fit
+		for _, tgt := range []any{new(uint64), new(int8), new(uint16), new(int64)} {
+			rest3, err3 := json.Parse(append([]byte(nil), in...), tgt, 0)
+			if _, isSyntax := err3.(*json.SyntaxError); isSyntax {
+				continue // not a number at all: covered above
+			}
+			if string(rest3) != tail {
+				c.Violation("parse-remainder", "remainder-diff-typed", fmt.Sprintf("Parse(%q, %T) (err %v) remainder %q, want %q", in, tgt, err3, rest3, tail), map[string]any{"input": string(in)})
+				break
+			}
+		}
 		c.Distinct(core.HashBytes(in), true)
 	}
-	c.Count("parse.calls", 16)
+	c.Count("parse.calls", 48)
 }
 
 func init() {
